@@ -3,6 +3,7 @@ package c20
 import (
 	"fmt"
 	"sort"
+	"strings"
 
 	"verifharness/rng"
 )
@@ -566,4 +567,69 @@ func (qg *qgen) gen(depth int, pin *string) *Q {
 		}
 		return q
 	}
+}
+
+// crossLevelAsClause draws the shape in which a nested conjunction has to be *advanced* by an
+// enclosing query: an inner conjunction whose clauses address different arrays / levels of one
+// live parent (deeper clauses listed first, taken from different elements where possible), used
+// as a clause of an outer conjunction whose other clause is a leaf of the same parent. The parent
+// satisfies every leaf that was taken from it, so it has to be reported whenever the other
+// parents of the corpus make the outer searcher skip forward over the inner one.
+func (qg *qgen) crossLevelAsClause() *Q {
+	g := qg.g
+	if len(qg.ids) == 0 || len(qg.prefs) < 2 {
+		return nil
+	}
+	for try := 0; try < 6; try++ {
+		root := qg.roots[rng.Pick(g, qg.ids)]
+		var elems []*MNode
+		root.walk(func(m *MNode) {
+			if m != root {
+				elems = append(elems, m)
+			}
+		})
+		if len(elems) == 0 {
+			continue
+		}
+		// walk() is document order: prefer a late element for the first (deepest) clause and an
+		// early one for the later clauses
+		k := g.Range(1, 3)
+		var picked []*MNode
+		for i := 0; i < k; i++ {
+			var m *MNode
+			if i == 0 {
+				m = elems[len(elems)-1-g.Intn((len(elems)+1)/2)]
+			} else {
+				m = elems[g.Intn((len(elems)+1)/2)]
+			}
+			picked = append(picked, m)
+		}
+		depth := func(m *MNode) int { return strings.Count(m.Prefix, ".") }
+		if g.Chance(4, 5) {
+			sort.SliceStable(picked, func(a, b int) bool { return depth(picked[a]) > depth(picked[b]) })
+		}
+		var inner []*Q
+		for _, m := range picked {
+			if q := qg.leafFrom(m); q != nil {
+				inner = append(inner, q)
+			}
+		}
+		top := qg.leafFrom(root)
+		if top != nil && (len(inner) < 2 || g.Chance(2, 3)) {
+			inner = append(inner, top)
+		}
+		if len(inner) < 2 {
+			continue
+		}
+		other := qg.leafFrom(root)
+		if other == nil || g.Chance(1, 4) {
+			other = qg.leaf(nil)
+		}
+		in := &Q{Kind: "conj", Kids: inner}
+		if g.Chance(1, 4) {
+			return &Q{Kind: "conj", Kids: []*Q{other, in}}
+		}
+		return &Q{Kind: "conj", Kids: []*Q{in, other}}
+	}
+	return nil
 }
